@@ -82,12 +82,18 @@ func (p *recPacer) snapshot() []int {
 type cbRecorder struct {
 	mu   sync.Mutex
 	vals []int
+	// reenter, when set, is called from inside the callback: the estimator's public getters
+	reenter func()
 }
 
 func (r *cbRecorder) on(v int) {
 	r.mu.Lock()
 	r.vals = append(r.vals, v)
+	re := r.reenter
 	r.mu.Unlock()
+	if re != nil {
+		re() // applications read the estimator from their callback
+	}
 }
 
 func (r *cbRecorder) snapshot() []int {
